@@ -280,10 +280,13 @@ def run(ctx):
     ctx.assumptions += [
         "the hand-written Gallina model coq/Model/FFT.v is tied to the Rust source by the correspondence only (no translator)",
         "E = B in the model (base-field vectors); extension-field vectors are covered by the falsifier (mul_base acts coordinate-wise)",
-        "indices inside fft_in_place/permute are modelled totally; under the asserts of the entry points they are in range (a panic of the real code would surface as a correspondence disagreement)",
+        "panics: the checked model (every values[i]/twiddles[i]/swap and the debug_asserts as explicit None) is proved equal to the option-valued model on all inputs (C09_entry_points_no_panic); a butterfly that touches i and j is one guard on both indices",
         "usize = 64 bits; lengths below 2^32 (`len as u32`)",
         "only the serial code path (feature `concurrent` off) — the concurrent variants belong to another property",
     ]
+    # pure integer part: permute_index is TRANSLATED from math/src/fft/mod.rs on every run (coq/Gen/FftIndex.v);
+    # Proofs/FFTGen.v proves that the hand model computes the generated term
+    ctx.rs2v(["FftIndex"])
     ctx.audit_sources()
     ctx.coq_build("C09")
     if not quick:
@@ -297,6 +300,10 @@ def run(ctx):
         "b": "checked every run: extracted faithful model and extracted fft_rec vs the crate (see correspondence)",
         "c": "theorem (every k): faithful index-level fft_in_place (both strategies, any count/stride/offset) = bit-reversed list FFT; "
              "permute = bit reversal; evaluate_poly/evaluate_poly_with_offset/interpolate_poly(_with_offset)/infer_degree of the faithful model",
+        "no_panic": "theorem (every k): no slice access of fft_in_place/permute out of range under the entry-point asserts; checked entry points = "
+                    "entry points on all inputs; exact panic domains (_total_iff); the driver also runs the checked model on every case of work size <= 512",
+        "generated": "permute_index is translated by rs2v from the source on every run; theorem: model = generated term for every size <= 2^63; "
+                     "the driver evaluates the generated term on every permute_index case",
     }
     for s in ctx.samples:
         for k in list(s):
